@@ -98,7 +98,7 @@ def run_case(case):
     consts.update(dim_consts)
     resources = dict(desc["resources"])
     attrs = dict(desc["attrs"])
-    extra = {**consts, **resources}
+    extra = {**resources, **consts}     # (a stored constant beats a resource)
 
     # ---- inputs
     if case["mode"] == "combos":
@@ -305,8 +305,13 @@ def runner_desc(draw, to_df=False, allow_xobj=True):
             ["none", "constant"]))
     consts = draw(gens.constants(2))
     dim_const_as = draw(st.sampled_from(["list", "list", "tuple", "ndarray"]))
-    resources = draw(st.sampled_from(
-        [{}, {}, {"big": [1, 2, 3]}, {"res": "x", "lookup": 7}]))
+    resources = dict(draw(st.sampled_from(
+        [{}, {}, {"big": [1, 2, 3]}, {"res": "x", "lookup": 7}])))
+    plain_consts = [k for k in consts if k not in used]
+    if plain_consts and draw(st.sampled_from([False, False, True])):
+        # a name stored both as a constant and as a resource (a default
+        # resource that a study overrides through its constants)
+        resources[plain_consts[0]] = "resource-default"
     attrs = draw(st.sampled_from(
         [{}, {"note": "hello"}, {"version": 3, "tag": "a-b"}]))
     str_var = None
